@@ -3,7 +3,7 @@
     of Base/FS.v is assumed).  Only statements here; proofs: Proofs/FS.v,
     Proofs/Writers.v. *)
 From Coq Require Import String List NArith Bool.
-From AGH Require Import Base.FS Proofs.FS Model.Writers Gen.Writers Proofs.Writers.
+From AGH Require Import Base.FS Proofs.FS Model.Writers Gen.Writers Proofs.Writers Model.SaveLoop Proofs.SaveLoop.
 Import ListNotations.
 Local Open Scope N_scope.
 
@@ -207,6 +207,184 @@ Print Assumptions C14_no_leftovers.
 Theorem C14_f_cur_is_spec : forall f, f_cur f = f_cur_spec f.
 Proof. exact f_cur_spec_eq. Qed.
 Print Assumptions C14_f_cur_is_spec.
+
+(** ** Content identity: the NEW VERSION is a parameter of the save.
+
+    Configuration and lease table (renameio.WriteFile): for every content [c],
+    every way the kernel splits the one Write into pieces, every fault plan
+    (creation of the temporary file, a write cut short at any position, fsync,
+    close, rename) and every crash point, dst holds the complete previous
+    version or exactly [c]; and when the save has returned, dst holds [c] if it
+    reported success and the previous version otherwise. *)
+Theorem C14_write_file_identity : forall s dst tmp fd (c : data) chunks p,
+  quiescent s dst -> fresh_tmp s dst tmp -> concat chunks = c ->
+  let t := fst (write_file fd tmp dst chunks p) in
+  let r := snd (write_file fd tmp dst chunks p) in
+  (forall v, In v (visible_states s t dst) -> v = live_view s dst \/ (r = Replaced /\ v = Some c)) /\
+  live_view (run s t) dst = (if replaced r then Some c else live_view s dst).
+Proof. exact write_file_identity. Qed.
+Print Assumptions C14_write_file_identity.
+
+(** Success is reported only when every piece was written and no call failed;
+    a failing open / fsync / close / rename, or a write cut short, is reported
+    as a failure (fsync fails => no rename: see [replace_ops]). *)
+Theorem C14_write_file_reports : forall dst tmp fd chunks p,
+  let r := snd (write_file fd tmp dst chunks p) in
+  (r = Replaced -> do_writes chunks (p_write p) = (chunks, true) /\
+                   p_open p = false /\ p_sync p = false /\ p_close p = false /\ p_rename p = false) /\
+  (p_open p || p_sync p || p_close p || p_rename p = true -> exists st, r = Failed st) /\
+  (snd (do_writes chunks (p_write p)) = false -> exists st, r = Failed st).
+Proof. exact write_file_reports. Qed.
+Print Assumptions C14_write_file_reports.
+
+(** One save of either kind, at the level of its system calls ([done] = the
+    write calls that reached the temporary file): accepted by the checker the
+    recorded traces are judged by; visible = previous version, or exactly the
+    written content and then only if the save reports [Replaced]. *)
+Theorem C14_save_ops_visible : forall cl s dst tmp fd done e p,
+  quiescent s dst -> fresh_tmp s dst tmp ->
+  let t := fst (save_ops cl fd tmp dst done e p) in
+  let r := snd (save_ops cl fd tmp dst done e p) in
+  forall v, In v (visible_states s t dst) ->
+            v = live_view s dst \/ (r = Replaced /\ v = Some (concat done)).
+Proof. exact save_ops_visible. Qed.
+Print Assumptions C14_save_ops_visible.
+
+Theorem C14_save_ops_checked : forall cl s dst tmp fd done e p,
+  fresh_tmp s dst tmp ->
+  let t := fst (save_ops cl fd tmp dst done e p) in
+  let r := snd (save_ops cl fd tmp dst done e p) in
+  trace_safe dst s t = true /\
+  versions s t dst = if replaced r then [Some (concat done)] else [].
+Proof. exact save_ops_checked. Qed.
+Print Assumptions C14_save_ops_checked.
+
+(** The download path (reader -> parser -> pending file -> finalizeUpdate), for
+    ANY reader, any parser stage, any fault plan, any previous checksum: what
+    is visible is the previous version or the parser's output on what the
+    reader delivered; [Replaced] is reported only if the source could be
+    opened, the reader ENDED WITH EOF, the parser accepted everything, the
+    checksum changed and no system call failed. *)
+Theorem C14_update_list_identity : forall St st0 feed finish sum s dst tmp fd src_ok r old_sum p,
+  quiescent s dst -> fresh_tmp s dst tmp ->
+  let t := fst (update_list St st0 feed finish sum fd tmp dst src_ok r old_sum p) in
+  let res := snd (update_list St st0 feed finish sum fd tmp dst src_ok r old_sum p) in
+  let out := concat (fst (pump St feed finish st0 r)) in
+  (forall v, In v (visible_states s t dst) -> v = live_view s dst \/ (res = Replaced /\ v = Some out)) /\
+  live_view (run s t) dst = (if replaced res then Some out else live_view s dst) /\
+  (res = Replaced -> src_ok = true /\ snd (pump St feed finish st0 r) = true /\ ends_ok r = true /\
+                     sum out <> old_sum /\
+                     p_open p = false /\ p_sync p = false /\ p_close p = false /\ p_rename p = false).
+Proof. exact update_list_identity. Qed.
+Print Assumptions C14_update_list_identity.
+
+(** Content identity for the list as served (the reader of the pinned tree:
+    the response body itself): for every body, every cutting into chunks, a
+    connection cut or not, every fault plan: dst holds the previous version or
+    the normal form of the WHOLE body ([norm]: what the parser writes when the
+    body arrives in one piece; premise: the parser stage does not depend on
+    the cutting, satisfiable: [C14_parser_stages_chunking_independent]). *)
+Theorem C14_update_list_served_identity : forall St st0 feed finish sum s dst tmp fd chunks cut old_sum p body,
+  chunking_independent St feed ->
+  quiescent s dst -> fresh_tmp s dst tmp -> concat chunks = body ->
+  let t := fst (update_list St st0 feed finish sum fd tmp dst true (serve chunks cut) old_sum p) in
+  let res := snd (update_list St st0 feed finish sum fd tmp dst true (serve chunks cut) old_sum p) in
+  (forall v, In v (visible_states s t dst) ->
+             v = live_view s dst \/ (res = Replaced /\ Some v = option_map Some (norm St feed finish st0 body))) /\
+  (res = Replaced -> cut = false /\ option_map Some (norm St feed finish st0 body) = Some (live_view (run s t) dst)) /\
+  (res <> Replaced -> live_view (run s t) dst = live_view s dst).
+Proof. exact update_list_served_identity. Qed.
+Print Assumptions C14_update_list_served_identity.
+
+Theorem C14_parser_stages_chunking_independent :
+  chunking_independent unit id_feed /\ forall keep, chunking_independent unit (filter_feed keep).
+Proof. exact (conj id_chunking_independent filter_chunking_independent). Qed.
+Print Assumptions C14_parser_stages_chunking_independent.
+
+(** Readers.  golibs' ioutil.LimitReader (rule-list storage) is faithful: an
+    EOF from it means the underlying reader ended with EOF and everything was
+    delivered; behind a faithful reader a refresh that reports [Replaced] has
+    stored the output for the whole stream. *)
+Theorem C14_err_limit_faithful : forall r n, faithful (err_limit r n) r.
+Proof. exact err_limit_is_faithful. Qed.
+Print Assumptions C14_err_limit_faithful.
+
+Theorem C14_update_list_faithful_reader : forall St st0 feed finish sum s dst tmp fd r' r old_sum p,
+  quiescent s dst -> fresh_tmp s dst tmp -> faithful r' r ->
+  let t := fst (update_list St st0 feed finish sum fd tmp dst true r' old_sum p) in
+  let res := snd (update_list St st0 feed finish sum fd tmp dst true r' old_sum p) in
+  res = Replaced ->
+  ends_ok r = true /\ received r' = received r /\
+  live_view (run s t) dst = Some (concat (fst (pump St feed finish st0 r'))).
+Proof. exact update_list_faithful_reader. Qed.
+Print Assumptions C14_update_list_faithful_reader.
+
+(** REFUTED variant: the standard io.LimitReader ends with plain EOF at the
+    limit.  It is not faithful for any stream longer than the limit ... *)
+Theorem C14_std_limit_not_faithful : forall n body,
+  n < nlen body ->
+  let r := serve [body] false in
+  ends_ok (std_limit r n) = true /\
+  received (std_limit r n) = firstn (N.to_nat n) body /\
+  received (std_limit r n) <> received r.
+Proof. exact std_limit_not_faithful. Qed.
+Print Assumptions C14_std_limit_not_faithful.
+
+(** ... and the download path behind it, for EVERY limit [cap] and every body
+    of cap + 1 elements (witness size = limit + 1), reports [Replaced] and
+    leaves at dst the first [cap] elements: neither the previous version nor
+    the new one, with no fault, crash or concurrency involved. *)
+Theorem C14_update_list_std_limit_refuted : forall s dst tmp fd (cap : N) body old_sum,
+  quiescent s dst -> fresh_tmp s dst tmp ->
+  nlen body = cap + 1 -> len_sum (firstn (N.to_nat cap) body) <> old_sum ->
+  let r := std_limit (serve [body] false) cap in
+  let t := fst (update_list unit tt id_feed id_finish len_sum fd tmp dst true r old_sum no_faults) in
+  let res := snd (update_list unit tt id_feed id_finish len_sum fd tmp dst true r old_sum no_faults) in
+  res = Replaced /\
+  live_view (run s t) dst = Some (firstn (N.to_nat cap) body) /\
+  firstn (N.to_nat cap) body <> body /\
+  norm unit id_feed id_finish tt body = Some body.
+Proof. exact update_list_std_limit_refuted. Qed.
+Print Assumptions C14_update_list_std_limit_refuted.
+
+Example C14_update_list_std_limit_witness :
+  let s := boot [(1, [7; 7])] in
+  let body := [1; 2; 3; 4; 5] in
+  let r := std_limit (serve [[1; 2]; [3; 4; 5]] false) 4 in
+  let t := fst (update_list unit tt id_feed id_finish len_sum 3 2 1 true r 2 no_faults) in
+  snd (update_list unit tt id_feed id_finish len_sum 3 2 1 true r 2 no_faults) = Replaced /\
+  trace_safe 1 s t = true /\
+  live_view (run s t) 1 = Some [1; 2; 3; 4] /\
+  (let r' := err_limit (serve [[1; 2]; [3; 4; 5]] false) 4 in
+   let t' := fst (update_list unit tt id_feed id_finish len_sum 3 2 1 true r' 2 no_faults) in
+   snd (update_list unit tt id_feed id_finish len_sum 3 2 1 true r' 2 no_faults) = Failed AtRead /\
+   live_view (run s t') 1 = Some [7; 7]) /\
+  (let r0 := serve [[1; 2]; [3; 4; 5]] false in
+   let t0 := fst (update_list unit tt id_feed id_finish len_sum 3 2 1 true r0 2 no_faults) in
+   snd (update_list unit tt id_feed id_finish len_sum 3 2 1 true r0 2 no_faults) = Replaced /\
+   live_view (run s t0) 1 = Some body).
+Proof. exact update_list_std_limit_witness. Qed.
+
+Example C14_save_premises :
+  let s := boot [(1, [10; 11])] in
+  quiescent s 1 /\ fresh_tmp s 1 2 /\
+  (let w := write_file 3 2 1 [[20]; [21; 22]] no_faults in
+   snd w = Replaced /\ live_view (run s (fst w)) 1 = Some [20; 21; 22]) /\
+  (let w := write_file 3 2 1 [[20]; [21; 22]]
+              {| p_open := false; p_write := Some (1%nat, 1); p_sync := false; p_close := false; p_rename := false |} in
+   snd w = Failed AtWrite /\ live_view (run s (fst w)) 1 = Some [10; 11] /\
+   fst w = [Open 3 2 fl_tmp; Write 3 [20]; Write 3 [21]; Close 3; Unlink 2]) /\
+  (let w := write_file 3 2 1 [[20]]
+              {| p_open := false; p_write := None; p_sync := true; p_close := false; p_rename := false |} in
+   snd w = Failed AtSync /\ live_view (run s (fst w)) 1 = Some [10; 11] /\
+   fst w = [Open 3 2 fl_tmp; Write 3 [20]; Close 3; Unlink 2]) /\
+  (let u := update_list unit tt (filter_feed (fun x => negb (x =? 0))) id_finish len_sum 3 2 1 true
+              (serve [[5; 0]; [0; 6; 7]] false) 2
+              {| p_open := false; p_write := None; p_sync := false; p_close := false; p_rename := true |} in
+   snd u = Failed AtRename /\ live_view (run s (fst u)) 1 = Some [10; 11] /\
+   fst u = [Open 3 2 fl_tmp; Write 3 [5]; Write 3 [6; 7]; Fsync 3; Close 3]) /\
+  norm unit (filter_feed (fun x => negb (x =? 0))) id_finish tt [5; 0; 0; 6; 7] = Some [5; 6; 7].
+Proof. exact save_premises. Qed.
 
 (** Program level (covers write paths the traced runs do not reach): every
     call in the non-test, linux-built files of internal/home, dhcpd, filtering,
